@@ -31,6 +31,18 @@ def resolveWith (rules : List Rule) (aborts : List AbortRule)
 
 def resolve := resolveWith Generated.rules Generated.aborts Generated.resolveAuto
 
+/-- the second half of `Derive::parse` (the `Features { … }` literal, `feature_parser.finish()`) and
+`Features::resolve`, for an already parsed enum -/
+def configStage (D : Derive) (sorted : Sorted) (fm : FeatureMap) (errs : List Err) : Except (List Err) Expansion :=
+  let pf := parseFeatures Generated.catalog {} fm errs
+  let errs := pf.2.2 ++ pf.2.1.map (fun _ => Err.unknownFeature)
+  let sh : Shape := { gapless := D.gapless, numValues := D.numValues, sizeGuess := D.sizeGuess }
+  match resolve sh pf.1.flags pf.1.modes with
+  | .error e => .error (errs ++ [e])
+  | .ok (fl, m) =>
+    if errs.isEmpty then .ok { D := D, flags := fl, modes := m, items := pf.1.items, sorted := sorted }
+    else .error errs
+
 /-- `Derive::parse` + `Features::resolve`.  `π` is the order in which the `HashMap` of
 `parse_values` yields its entries (any permutation; `id` in the executable). -/
 def expandWith (π : List (Int × (Name × Name)) → List (Int × (Name × Name)))
@@ -56,14 +68,7 @@ def expandWith (π : List (Int × (Name × Name)) → List (Int × (Name × Name
           let ranges := computeRanges (values.map (·.1))
           let D : Derive := { repr := repr, reprName := rname, sizeGuess := sizeGuess, ubits := ubits,
                               values := values, ranges := ranges }
-          let (fs, fm, errs) := parseFeatures Generated.catalog {} fm pv.errs
-          let errs := errs ++ fm.map (fun _ => Err.unknownFeature)
-          let sh : Shape := { gapless := D.gapless, numValues := D.numValues, sizeGuess := sizeGuess }
-          match resolve sh fs.flags fs.modes with
-          | .error e => .error (errs ++ [e])
-          | .ok (fl, m) =>
-            if errs.isEmpty then .ok { D := D, flags := fl, modes := m, items := fs.items, sorted := sorted }
-            else .error errs
+          configStage D sorted fm pv.errs
 
 def expand := expandWith id
 
